@@ -6,8 +6,8 @@ CONSTANTS
   FixMerge = TRUE
   ArmAt = "commit"
   Upfront = TRUE
-  SplitStart = TRUE
-  Cap <- CapAll
+  SplitStart = FALSE
+  Cap <- CapTwo
 SPECIFICATION Spec
 INVARIANTS TypeOK NoInflightBroadcast OnlyCommitted
 PROPERTIES PSafety Delivered Converged
